@@ -65,6 +65,9 @@ type NotClaimed struct {
 	Property string `json:"property"`
 	Re       string `json:"re"` // regexp on obligation names
 	Reason   string `json:"reason"`
+	// Assumed: the obligation is believed true but cannot be proved here; it is not counted as discharged, it IS assumed
+	// for what follows (an explicit assumption, listed in the evidence). Without it nothing is assumed from the obligation.
+	Assumed bool `json:"assumed,omitempty"`
 }
 
 type obRec struct {
@@ -272,7 +275,21 @@ func runCheck(prop, tier, repo, evdir string, verbose bool) int {
 			}(i, f)
 			continue
 		}
-		f := eng.GenVC(j.fn, VerifyOpts{SafetyOnly: j.sel.Mode == "sweep", AllocBound: j.sel.Alloc, NoFrame: j.sel.Mode == "sweep" || j.sel.NoFrame, ParamInvs: j.sel.ParamInvs})
+		var kindsRe *regexp.Regexp
+		if j.sel.Kinds != "" {
+			kindsRe, _ = regexp.Compile(j.sel.Kinds)
+		}
+		f := eng.GenVC(j.fn, VerifyOpts{SafetyOnly: j.sel.Mode == "sweep", AllocBound: j.sel.Alloc, NoFrame: j.sel.Mode == "sweep" || j.sel.NoFrame, ParamInvs: j.sel.ParamInvs,
+			NoAssume: func(name, kind string) bool {
+				// what this check does not claim is not assumed either: listed as not claimed, or of a kind outside the selection
+				if kindsRe != nil && !kindsRe.MatchString(kind) {
+					return true
+				}
+				if nc := mnc(name); nc != nil {
+					return !nc.Assumed
+				}
+				return matchKnown(known, prop, name) != nil
+			}})
 		results[i].f = f
 		if f.Unsupported != "" || f.ContractErr != "" {
 			continue
@@ -353,6 +370,7 @@ func runCheck(prop, tier, repo, evdir string, verbose bool) int {
 	violations := 0
 	var knownHit []string
 	var notClaimedHit []string
+	var assumedObs []string
 	var lines []string
 	drift := false
 	for _, r := range results {
@@ -401,7 +419,12 @@ func runCheck(prop, tier, repo, evdir string, verbose bool) int {
 			if nc := mnc(o.Name); nc != nil {
 				rec.Status = "not-claimed(" + v.Status + ")"
 				obs = append(obs, rec)
-				notClaimedHit = append(notClaimedHit, o.Name+" — "+nc.Reason)
+				if nc.Assumed {
+					notClaimedHit = append(notClaimedHit, o.Name+" — ASSUMED (not proved; what follows it in the function is proved relative to it): "+nc.Reason)
+					assumedObs = append(assumedObs, "unproved obligation used as an assumption: "+o.Name+" ("+nc.Reason+")")
+				} else {
+					notClaimedHit = append(notClaimedHit, o.Name+" — "+nc.Reason)
+				}
 				continue
 			}
 			nOb++
@@ -465,6 +488,7 @@ func runCheck(prop, tier, repo, evdir string, verbose bool) int {
 		as = append(as, a)
 	}
 	as = append(as, cfg.Assumptions...)
+	as = append(as, uniq(assumedObs)...)
 	sort.Strings(as)
 	sort.Strings(funcs)
 	var samples []interface{}
